@@ -144,6 +144,7 @@ def correspond(ctx):
     for r in recs:
         ctx.case(pcommon.key_of(r), nontrivial=sum(r["inp"].count(o) for o in "+-*/&") >= 2 or r["inp"].count("y") >= 2, agreed=r.get("agree", True))
     run_oracle(ctx, oracle_cases)
+    sequence_oracle(ctx)
     ctx.sample({"rule": "E <<= E + ('+'|'-') + N | N", "input": "1+2-12", "capacities": [str(c) for c in CAPS]})
 
 
@@ -178,6 +179,57 @@ def run_oracle(ctx, oracle_cases, stop_at_first=False):
                               {"kind": "oracle", "name": name, "env": env, "root": root, "input": inp})
 
 
+def sequence_oracle(ctx):
+    """left-recursive rules through every entry point, twice: what one call memoized must not answer the next call on another text
+    (the memo key has no input string; every entry point starts from an empty memo)"""
+    import pyparsing as pp
+    rng = ctx.rng
+    done = 0
+    for _ in range(4 if not ctx.thorough else 40):
+        for (name, env, root, iterative, kind, mk) in rule_sets(rng):
+            if kind == "nobase" or name.startswith("indirect"):
+                continue
+            t1, t2 = mk(), " ; ".join(mk() for _ in range(2))
+            for cap in (None, 1):
+                def run():
+                    e = build.Builder(env).build_all(root)
+                    pp.ParserElement.disable_memoization()
+                    pp.ParserElement.enable_left_recursion(cap)
+                    try:
+                        obs = lambda f: (lambda r: r)(_obs(f))
+                        fresh_scan = _obs(lambda: [(r.as_list(), a, b) for r, a, b in e.scan_string(t2)])
+                        fresh_search = _obs(lambda: e.search_string(t2).as_list())
+                        _obs(lambda: e.parse_string(t1))
+                        after_scan = _obs(lambda: [(r.as_list(), a, b) for r, a, b in e.scan_string(t2)])
+                        _obs(lambda: e.parse_string(t1))
+                        after_search = _obs(lambda: e.search_string(t2).as_list())
+                        return [("scan_string", fresh_scan, after_scan), ("search_string", fresh_search, after_search)]
+                    finally:
+                        pp.ParserElement.disable_memoization()
+                res = guarded(run, 3.0)
+                if res == ("timeout",):
+                    continue
+                done += 1
+                ctx.case("sequence:%s|%r|%r|%r" % (name, t1, t2, cap), True, True)
+                for ep, fresh, after in res:
+                    if fresh != after:
+                        ctx.violation("sequence:%s|%s|%r|%r|%r" % (ep, name, t1, t2, cap),
+                                      "%s (env %r), enable_left_recursion(%r): %s(%r) answers %r as a first call but %r after parse_string(%r) on the same objects" % (
+                                          name, env, cap, ep, t2, fresh, after, t1), {"kind": "sequence"})
+                        break
+    ctx.stat("sequence_cases", done)
+
+
+def _obs(f):
+    import pyparsing as pp
+    try:
+        return ("ok", f())
+    except pp.ParseBaseException as x:
+        return ("err", type(x).__name__, x.loc)
+    except RecursionError:
+        return ("div",)
+
+
 def search(ctx, reasons):
     import random, time
     t0 = time.time()
@@ -210,5 +262,12 @@ def replay(ctx, obj):
         for c in CAPS:
             print(c, impl_tokens(_tuplify(r.get("root") or ["fwd", 0]), env, r["input"], ("lr", c)))
         return False
+    if r.get("kind") == "sequence":
+        c2 = vlib.Ctx(PROP, "quick", ctx.seed)
+        c2.known = {}
+        sequence_oracle(c2)
+        for v in c2.violations:
+            print(v["what"])
+        return not c2.violations
     print("replay names a broken proof/correspondence obligation: %r" % (r,))
     return False
